@@ -30,11 +30,11 @@ MC_PROPS = ["AckWriteOnce", "ClosedStaysClosed", "SeqMonotone", "ClosedNoFlow"]
 def mc_constants(kind, tier):
     if tier == "quick":
         c = dict(KIND=kind, TP=1000, MaxH=4, MaxT=8, MaxSeq=1, DATA={"ok"}, SENDERS={"A"}, DTS={1}, FREEZE=False,
-                 TOH_OFFS={3}, TOT_OFFS={5}, TOS_OFFS={2, 3}, GENESIS=False)
+                 TOH_OFFS={3}, TOT_OFFS={5}, TOS_OFFS={2, 3}, GENESIS=False, SKEW_A=0, SKEW_B=0)
     else:
         c = dict(KIND=kind, TP=1000, MaxH=5, MaxT=9 if kind != "V2" else 11, MaxSeq=1 if kind != "V2" else 2,
                  DATA={"ok"} if kind != "V2" else {"ok", "async"}, SENDERS={"A"}, DTS={1}, FREEZE=False,
-                 TOH_OFFS={3}, TOT_OFFS={5}, TOS_OFFS={2, 3}, GENESIS=False)
+                 TOH_OFFS={3}, TOT_OFFS={5}, TOS_OFFS={2, 3}, GENESIS=False, SKEW_A=0, SKEW_B=0)
     return c
 
 
@@ -46,17 +46,17 @@ MC_WITNESS = {
 }
 
 
-def sched_constants(kind, tier, depth, outdir, tp=BIG_TP, genesis=False):
+def sched_constants(kind, tier, depth, outdir, tp=BIG_TP, genesis=False, skew=(0, 0)):
     return dict(KIND=kind, TP=tp, MaxH=3 * depth, MaxT=6 * depth, MaxSeq=3 if tier == "quick" else 4,
                 DATA={"ok", "fail", "async", "ok2", "fail2", "fail3", "async1", "ok1"}, SENDERS={"A", "B"}, DTS={1, 2}, FREEZE=True,
                 TOH_OFFS={3, 6, 12}, TOT_OFFS={4, 9, 20} if tp > 1000 else {4, 9, 20, 90}, TOS_OFFS={2, 4, 9} if tp > 1000 else {2, 4, 9, 45},
-                Depth=depth, OutDir=outdir, HONEST_PCT=60, MACRO_PCT=50, EDGE_PCT=20, GENESIS=genesis)
+                Depth=depth, OutDir=outdir, HONEST_PCT=60, MACRO_PCT=50, EDGE_PCT=20, GENESIS=genesis, SKEW_A=skew[0], SKEW_B=skew[1])
 
 
 def sizes(tier):
     if tier == "quick":
-        return dict(per_kind=18, per_kind_g44=5, per_kind_tp=4, depth=36, shards=12)
-    return dict(per_kind=200, per_kind_g44=40, per_kind_tp=40, depth=60, shards=16)
+        return dict(per_kind=16, per_kind_g44=5, per_kind_tp=4, per_kind_sk=3, depth=36, shards=12)
+    return dict(per_kind=200, per_kind_g44=40, per_kind_tp=40, per_kind_sk=30, depth=60, shards=16)
 
 
 SMALL_TP = 30  # trusting period of the expiry schedules, in ticks
@@ -94,22 +94,24 @@ def gen_schedules(tier, seed, workdir):
     def one(job):
         kind, genesis = job
         smalltp = genesis == "tp"
+        skew = {"skA": (3, 0), "skB": (0, 3)}.get(genesis, (0, 0))
+        variant = genesis
         genesis = genesis is True
-        tag = kind + ("_g44" if genesis else "_tp" if smalltp else "")
-        n = sz["per_kind_g44"] if genesis else sz["per_kind_tp"] if smalltp else sz["per_kind"]
+        tag = kind + ("_g44" if genesis else "_tp" if smalltp else "_" + variant if skew != (0, 0) else "")
+        n = sz["per_kind_g44"] if genesis else sz["per_kind_tp"] if smalltp else sz["per_kind_sk"] if skew != (0, 0) else sz["per_kind"]
         outdir = os.path.join(workdir, "sched_" + tag)
         os.makedirs(outdir, exist_ok=True)
         cfg = os.path.join(d, "Sched_%s.cfg" % tag)
-        vk.write_cfg(cfg, "Spec", sched_constants(kind, tier, sz["depth"], outdir, genesis=genesis, tp=SMALL_TP if smalltp else BIG_TP))
-        vk.tlc_simulate(d, "Sched_Packet", cfg, n, sz["depth"] + 1, seed * 7 + KINDS.index(kind) + (100 if genesis else 200 if smalltp else 0), workers=1)
+        vk.write_cfg(cfg, "Spec", sched_constants(kind, tier, sz["depth"], outdir, genesis=genesis, tp=SMALL_TP if smalltp else BIG_TP, skew=skew))
+        vk.tlc_simulate(d, "Sched_Packet", cfg, n, sz["depth"] + 1, seed * 7 + KINDS.index(kind) + (100 if genesis else 200 if smalltp else 300 + skew[0] if skew != (0, 0) else 0), workers=1)
         out = []
         for i, f in enumerate(sorted(glob.glob(os.path.join(outdir, "*.json")))):
             s = json.load(open(f))
             # G44 schedules contain genesis export/import steps; they are judged for C44 only (see attribute())
-            s["id"] = "%s%s-%d-%d" % ("G44-" if genesis else "TP-" if smalltp else "", kind, seed, i)
+            s["id"] = "%s%s-%d-%d" % ("G44-" if genesis else "TP-" if smalltp else "SK%d%d-" % skew if skew != (0, 0) else "", kind, seed, i)
             out.append(s)
         return out[:n]
-    for lst in vk.pmap(one, [(k, g) for k in KINDS for g in (False, True, "tp")], 3):
+    for lst in vk.pmap(one, [(k, g) for k in KINDS for g in (False, True, "tp", "skA", "skB")], 3):
         scheds.extend(lst)
     shutil.rmtree(d, ignore_errors=True)
     if len(scheds) < 3:
@@ -138,7 +140,7 @@ def drive(binary, scheds, workdir, tag, nshards, env=None):
         for line in open(f):
             if line.strip():
                 d = json.loads(line)
-                groups[(d["kind"], d["tp"])].append(line)
+                groups[(d["kind"], d["tp"], d.get("ska", 0), d.get("skb", 0))].append(line)
     return groups
 
 
@@ -147,12 +149,12 @@ def validate(groups, workdir, tag):
     fails, steps = [], 0
 
     def one(item):
-        (kind, tp), lines = item
-        tf = os.path.join(workdir, "%s_%s_%d.ndjson" % (tag, kind, tp))
+        (kind, tp, ska, skb), lines = item
+        tf = os.path.join(workdir, "%s_%s_%d_%d%d.ndjson" % (tag, kind, tp, ska, skb))
         with open(tf, "w") as f:
             f.writelines(lines)
-        cfg = os.path.join(d, "Trace_%s_%d.cfg" % (kind, tp))
-        vk.write_cfg(cfg, "TraceSpec", dict(KIND=kind, TP=tp, TraceFile=tf))
+        cfg = os.path.join(d, "Trace_%s_%d_%d%d.cfg" % (kind, tp, ska, skb))
+        vk.write_cfg(cfg, "TraceSpec", dict(KIND=kind, TP=tp, SKEW_A=ska, SKEW_B=skb, TraceFile=tf))
         fl, consumed, out = vk.tlc_trace(d, "Trace_Packet", cfg)
         if consumed != len(lines):
             raise vk.Infra("trace validation consumed %d of %d lines (%s)\n%s" % (consumed, len(lines), kind, out[-2000:]))
@@ -219,7 +221,7 @@ def coverage_of(groups):
     """(action, result) counts and per-property distinct nontrivial case signatures."""
     cov = collections.Counter()
     sigs = collections.defaultdict(set)
-    for (kind, tp), lines in groups.items():
+    for (kind, tp, ska, skb), lines in groups.items():
         for line in lines:
             d = json.loads(line)
             a = d["a"]
@@ -274,11 +276,11 @@ FLOORS = {
 
 # canonical failing cases of the recorded findings (known_findings.json); executed on every run
 PROBES = {
-    "KF-C44-1": {"id": "KF-C44-1", "kind": "UNORDERED", "tp": BIG_TP, "acts": [
+    "KF-C44-1": {"id": "KF-C44-1", "kind": "UNORDERED", "tp": BIG_TP, "ska": 0, "skb": 0, "acts": [
         {"a": "SendV2", "c": "A", "dt": 1, "toT": 40, "data": ["ok"]},
         {"a": "ExportImport", "c": "A", "dt": 1},
         {"a": "SendV2", "c": "A", "dt": 1, "toT": 40, "data": ["ok"]}]},
-    "KF-C44-2": {"id": "KF-C44-2", "kind": "V2", "tp": BIG_TP, "opt": "sameids", "acts": [
+    "KF-C44-2": {"id": "KF-C44-2", "kind": "V2", "tp": BIG_TP, "ska": 0, "skb": 0, "opt": "sameids", "acts": [
         {"a": "SendV2", "c": "A", "dt": 1, "toT": 40, "data": ["ok"]},
         {"a": "ExportImport", "c": "A", "dt": 1}]},
 }
@@ -348,7 +350,7 @@ def run_family(tier, seed, binary=None):
     for tr, step, prop, clause in fails:
         failing.setdefault(tr, by_id.get(tr))
     sample = None
-    for (kind, tp), lines in sorted(groups.items()):
+    for (kind, tp, ska, skb), lines in sorted(groups.items()):
         first = json.loads(lines[0])["tr"]
         sample = {"schedule_id": first, "kind": kind,
                   "trace_prefix": [slim(json.loads(l)) for l in lines[:8] if json.loads(l)["tr"] == first]}
